@@ -30,6 +30,10 @@ CLAIMED = {
             'TLA+ models PtyRead/FdRead/SockRead of read_nonblocking (one action per system call) x peer x process table checked by TLC in every interleaving; every single-call path of the TLC state graph replayed on the real transport by system-call interposition; recorded traces matched against the TLC state graph',
             'TLC proves prefix-in-order / EOF-only-when-drained / at-most-size / socket-timeout-restored for all interleavings in the bound; the same interleavings are forced on real pty children, pipes, pty and socket descriptors and socketpairs between the real system calls of the real code and the bytes compared',
             'real Linux kernel semantics observed, not modelled beyond readiness/short reads; units are single bytes; PopenSpawn see notes', '5 C06', 'transport'),
+    'C14': ('model_checking',
+            'TLA+ model AsyncExpect (expect_async + PatternWaiter on an asyncio loop/transport model, over ExpectImpl) checked by TLC for every arrival schedule; histories mixing blocking and awaited calls run through the real expect_async on a virtual-time asyncio loop with a hand-fed transport, traces validated by TLC against the contract ExpectAbs (ExpectTrace)',
+            'TLC proves conservation (also of what the caller is given), no lost result, TIMEOUT only without occurrence, genuine/leftmost/lowest index on the awaited path; real awaited executions are judged event by event against the same contract the blocking path is bound to (C01-C04), so parity is decided by TLC',
+            'event loop / read transport semantics are those of harness/vloop.py (CPython 3.12); _async_pre_await.py not importable here', '5 C14', 'async'),
     'C20': ('model_checking',
             'TLA+ decision table PatternForms enumerated and checked for consistency by TLC; one implementation test per table row (MongoDB-style): same scripted stream under the form and under the reference pattern',
             'every row of the table (mode x ignorecase x form x flag set x entry point) is executed on the real code over discriminating streams; rejected rows must raise TypeError with nothing read and pending text intact',
@@ -77,6 +81,9 @@ def main():
             {'name': 'deadline', 'path': 'spec/Deadline.tla spec/DeadlineTrace.tla harness/checks/deadline.py harness/world.py harness/vclock.py',
              'serves_properties': ['C05'],
              'kind_free_text': 'TLC model of deadline arithmetic + TLC trace validation of timed executions on real transports under a virtual clock'},
+            {'name': 'async', 'path': 'spec/AsyncExpect.tla spec/ExpectTrace.tla harness/vloop.py harness/async_driver.py harness/checks/async_parity.py',
+             'serves_properties': ['C14'],
+             'kind_free_text': 'TLC model of the asyncio path + TLC trace validation of real awaited executions on a virtual event loop'},
             {'name': 'patternforms', 'path': 'spec/PatternForms.tla harness/checks/c20.py', 'serves_properties': ['C20'],
              'kind_free_text': 'TLC-enumerated decision table, one implementation test per row'},
         ],
